@@ -1,4 +1,4 @@
-\* EXPECTED VIOLATION (F9): the tree before the repairs
+\* EXPECTED VIOLATION (F44): before the repair a watched-file deletion was never applied to the analysis
 CONSTANTS
  Docs = {"d1", "d2", "d3", "e", "q", "o", "h", "u", "g"}
  Mode = "seq"
@@ -17,11 +17,11 @@ CONSTANTS
  CancelledAnsweredOk = FALSE
  AnsFree = FALSE
  PollWhileWaiting = FALSE
- PreFixF9 = TRUE
+ PreFixF9 = FALSE
  PreFixWDel = TRUE
  ThirdPartyFatal = FALSE
  Gen = "bfs"
  ScriptLen = 2
 SPECIFICATION Spec
-INVARIANTS Alive
+INVARIANTS StoreApplied
 CHECK_DEADLOCK FALSE
